@@ -190,12 +190,16 @@ def run(ctx):
     t2 = need(ctx, "From<TagType> for u32", impl_trait_ref="core::convert::From<%s>" % TT, impl_self="u32", name="from")
     fwd = inv = None
     if t1:
-        fwd = table_check(ctx, "CLASSIFY", "u32->TagType", t1, S.MBI_TAG_TYPES, "TagType")
+        fwd_fn = t1
+        p1 = [k_ for k_, (a_, _m) in T.call_aliases(F).items() if a_ == t1["key"]]
+        if len(p1) == 1 and p1[0] in F.insts:
+            fwd_fn = F.insts[p1[0]]      # `TagType::from(u32)` forwards to a helper that holds the table
+        fwd = table_check(ctx, "CLASSIFY", "u32->TagType", fwd_fn, S.MBI_TAG_TYPES, "TagType")
     table_fn = t2
-    val0 = F.find(impl_self=TT, name="val", impl_trait=None)
-    if t2 and len(val0) == 1 and val0[0]["key"] in T.call_aliases(F):
-        # `u32::from(TagType)` forwards to `TagType::val`, which holds the table (the reference tree has it the other way round)
-        table_fn = val0[0]
+    partners = [k_ for k_, (a_, _m) in T.call_aliases(F).items() if t2 and a_ == t2["key"]]
+    if t2 and len(partners) == 1 and partners[0] in F.insts:
+        # `u32::from(TagType)` forwards to another function (`TagType::val`, a private `to_raw`, ..) that holds the table
+        table_fn = F.insts[partners[0]]
     if t2:
         inv = inverse_check(ctx, "CLASSIFY", "TagType->u32", table_fn, S.MBI_TAG_TYPES, TT)
     if fwd and inv:
@@ -253,6 +257,12 @@ def run(ctx):
     if val and t2 and val["key"] in T.call_aliases(F):
         ctx.ok("TERMS", "TagType::val", "TagType::val() == u32::from(*self): here `u32::from` is the one that forwards (its body is the single call "
                "`value.val()`), and val() holds the table checked as TagType->u32", site(t2), how="forwarding body, no branch")
+    elif val and t2 and partners:
+        # both forward to the same table function: val()'s value is a call of the partner on *self, written as u32::from(*self)
+        rt, _ = ret_term(ctx, val)
+        good = rt is not None and s(rt)[0] == "call" and s(rt)[1] == t2["key"] and s(rt)[2] in ((("deref", ("arg", 1, "&" + TT)),), (("deref", ("arg", 1)),))
+        ctx.check(good, "TERMS", "TagType::val", "TagType::val() == u32::from(*self) (both forward to the same table function)", site(val),
+                  how="return term %s" % G.show(rt), why="return term %s" % G.show(rt))
     elif val and t2:
         rt, _ = ret_term(ctx, val)
         good = rt is not None and s(rt)[0] == "call" and s(rt)[1] == t2["key"] and s(rt)[2] == (("deref", ("arg", 1, "&" + TT)),)
